@@ -219,6 +219,7 @@ func (p *polling) Send(packets []*packet.Packet) {
 	go p.send(packets)
 }
 func (p *polling) send(packets []*packet.Packet) {
+	utils.VerifYield("polling.send.begin")
 	p.mu.Lock()
 	defer p.mu.Unlock()
 
